@@ -167,9 +167,8 @@ PROPS = {
     "C05": {
         "engines": [("c05", "main")],
         "lean": ["PgsVerif.Props.C05"],
-        "category": "exploration",
         "rule": "ALL digraphs with self loops on 1-3 message nodes (stride-sampled on 4 in the thorough tier) embedded in valid bidirectionally built requests (edge = singular / repeated / map-value message field, nodes partly nested under holders sharing the simple name 'Item', an enum used by 1-2 nodes) x ALL orders of asking the nodes (dependents/dependencies interleaved or phased, the enum asked at every position); seeded random graphs up to 12 nodes with long cycles and random query histories with repetitions; the general world generator in bidirectional mode with up to 40 shuffled queries; non-trivial = at least 2 queries",
-        "level_text": "THEOREMS PENDING (level exploration until proved): executable Lean model of assignDependent's edges, the visited-set traversal and the per-entity caches compared with the real accessors under every generated query history; Phi_C05 = every answer is exactly the reachability closure computed by saturation from the descriptor-level edge relation, evaluated on every observed answer. Planned theorem: dfs = reachability for every graph and every cache history (core lemma already proved in a probe).",
+        "level_text": "Theorems for EVERY finite edge relation and EVERY history of accessor calls: C05_order_independent (invariant: the per-entity caches only ever hold complete closures, so each answer equals the answer of a fresh AST whatever was asked before), C05_dependencies / C05_dependents / C05_enum_dependents (the visited-set traversal returns exactly the reachability closure - sound and complete, cycles of every shape - minus the message itself), reach_preds_iff (dependents = messages from which it is reachable). The identification of the recorded edges with 'a field of m has message type x' (model edges = descriptor-level edges) is checked by Phi on every observed answer and by the correspondence run, not yet a theorem (it needs C03's resolution theorem).",
         "level_note": "Trusted: protodesc validity; descriptor pointer identity; Go map iteration order (answers compared as sets, duplicates flagged).",
     },
     "C06": {
